@@ -205,6 +205,7 @@ def form_request(action_type, options):
 # ---- state normalisation -----------------------------------------------------------------------------
 _UUID = re.compile(r"^[0-9a-f]{8}-[0-9a-f]{4}-[0-9a-f]{4}-[0-9a-f]{4}-[0-9a-f]{12}$")
 _MAC = re.compile(r"^([0-9a-f]{2}:){5}[0-9a-f]{2}$")
+_EMBEDDED = re.compile(r"[0-9a-f]{8}-[0-9a-f]{4}-[0-9a-f]{4}-[0-9a-f]{4}-[0-9a-f]{12}|(?:[0-9a-f]{2}:){5}[0-9a-f]{2}")
 
 
 def norm_state(x, table=None, drop=("uuid",)):
@@ -230,6 +231,9 @@ def norm_state(x, table=None, drop=("uuid",)):
             return [go(e) for e in v]
         if isinstance(v, str) and (_UUID.match(v) or _MAC.match(v)):
             return ident(v)
+        if isinstance(v, str) and ("-" in v or ":" in v):
+            # opaque identifiers embedded in a message ("... NetworkInterface 'aa:bb:..' ...")
+            return _EMBEDDED.sub(lambda m: ident(m.group(0)), v)
         if isinstance(v, float):
             return round(v, 9)
         if hasattr(v, "value") and hasattr(v, "name"):
